@@ -1008,6 +1008,22 @@ fn cfg(workers: usize, listeners: &[LKind], limit: usize) -> Config {
     Config { workers, listeners: listeners.to_vec(), limit, shutdown_timeout_s: 2, log_ready: false, silent_modes: false, factory_pending: 0 }
 }
 
+/// The configurations of a tier. The thorough tier is a superset of the quick one: it starts with
+/// every quick configuration (they are small and carry the scenarios that seeded changes and
+/// findings asked for) and goes on with its own, deeper ones.
+fn all_specs(prop: &'static str, tier: Tier) -> Vec<SpecImpl> {
+    let mut v = specs_for(prop, Tier::Quick);
+    if tier == Tier::Thorough {
+        let mut seen: std::collections::BTreeSet<String> = v.iter().map(|s| format!("{:?} {:?}", s.cfg, s.bounds)).collect();
+        for s in specs_for(prop, Tier::Thorough) {
+            if seen.insert(format!("{:?} {:?}", s.cfg, s.bounds)) {
+                v.push(s);
+            }
+        }
+    }
+    v
+}
+
 fn specs_for(prop: &'static str, tier: Tier) -> Vec<SpecImpl> {
     use LKind::*;
     let q = tier == Tier::Quick;
@@ -1309,7 +1325,7 @@ pub fn run(args: &Args) -> i32 {
     if prop == "C04" {
         availability_differential(&mut rep);
     }
-    let mut specs = specs_for(prop, args.tier);
+    let mut specs = all_specs(prop, args.tier);
     if let Some(g) = args.opts.get("generic").and_then(|g| g.parse::<usize>().ok()) {
         // experiment switch: generic nesting of this depth on every configuration
         for s in specs.iter_mut() {
@@ -1653,7 +1669,7 @@ fn replay(args: &Args, prop: &'static str, path: &std::path::Path, mut rep: Repo
         return rep.finish();
     }
     let tier = if r["tier"] == "thorough" { Tier::Thorough } else { Tier::Quick };
-    let specs = specs_for(prop, tier);
+    let specs = all_specs(prop, tier);
     let spec = &specs[r["spec_index"].as_u64().unwrap() as usize];
     let history = parse_history(&r["history"]);
     println!("config {}", spec.name());
